@@ -1,6 +1,7 @@
 ---------------------------- MODULE ReceiverReplay ----------------------------
 (* The explorer model (ReceiverImpl) run along GIVEN histories: file "hists.ndjson", one history per line
-     {id, w (window at start), first: [track] (init segments uploaded first), order: [{t, n}]}   n = 0: init of a late track
+     {id, w (window at start), first: [track] (init segments uploaded first), order: [{t, n, a}]}   n = 0: init of a late track;
+                                                              a: 0 in full, 1 / 2 aborted inside the first / a later fragment
    - the same lines the (R) driver replays against the real receiver.  For every history the model's outcome
    (panic and its site, published range, latestSeqNr, started, nrTracks, listedBad) is printed as one PRED line;
    the driver compares it with what the real code did (explorer fidelity - never a verdict).
@@ -13,9 +14,11 @@ NoUploads == {}
 ASByName == [t \in Tracks |-> IF t = "A1" THEN 2 ELSE 1]
 rvars == <<vars, k, j>>
 
+\* the model's encoding of an upload {t, n, a}: a = 0 in full, 1 aborted inside the first fragment, 2 inside a later one
+Enc(u) == IF u.a = 0 THEN u.n ELSE IF u.a = 1 THEN -u.n ELSE -(AbortLate + u.n)
 Proj(order, t) ==
   LET F[i \in 0..Len(order)] == IF i = 0 THEN <<>>
-                                ELSE IF order[i].t = t /\ order[i].n # 0 THEN Append(F[i - 1], order[i].n) ELSE F[i - 1]
+                                ELSE IF order[i].t = t /\ order[i].n # 0 THEN Append(F[i - 1], Enc(order[i])) ELSE F[i - 1]
   IN F[Len(order)]
 Steps(hh) == [i \in 1..Len(hh.first) |-> [t |-> hh.first[i], n |-> 0]] \o hh.order
 UplOf(hh) == [t \in Tracks |-> Proj(hh.order, t)]
